@@ -133,15 +133,15 @@ def iStep (t : Timer) (toks : List String) : Timer × String :=
   match toks with
   | ["new", m, d] =>
     match m.toNat?, d.toNat? with
-    | some m, some d => ({ cfg := Cfg.new m d }, "ok")
+    | some m, some d => ({ cfg := Cfg.new (1000 * m) (1000 * d) }, "ok")
     | _, _ => (t, "BAD new")
-  | ["sent", e, now] => match now.toNat? with | some n => ((step t (.sent (b e) n)).1, "none") | none => (t, "BAD")
-  | ["rcvd", e, now] => match now.toNat? with | some n => ((step t (.rcvd (b e) n)).1, "none") | none => (t, "BAD")
-  | ["negotiate", r] => match r.toNat? with | some r => ((step t (.negotiate r)).1, "none") | none => (t, "BAD")
+  | ["sent", e, now] => match now.toNat? with | some n => ((step t (.sent (b e) (1000 * n))).1, "none") | none => (t, "BAD")
+  | ["rcvd", e, now] => match now.toNat? with | some n => ((step t (.rcvd (b e) (1000 * n))).1, "none") | none => (t, "BAD")
+  | ["negotiate", r] => match r.toNat? with | some r => ((step t (.negotiate (1000 * r))).1, "none") | none => (t, "BAD")
   | ["health", now] =>
     match now.toNat? with
     | some n =>
-      let (t', o) := step t (.health n)
+      let (t', o) := step t (.health (1000 * n))
       (t', match o with | .none => "none" | .ping => "ping" | .timeout => "timeout")
     | none => (t, "BAD")
   | _ => (t, "BAD op")
